@@ -68,6 +68,8 @@ def swarm(rng, tier: str, *, profile: str = "edit") -> dict:
     }
     if profile == "scope":
         cfg["lets"] = rng.choice([0, 1, 2, 3])
+    # scripted read / restructure / write-again triples mixed into the operation stream (OpGen._scenario)
+    cfg["scenarios"] = rng.random() < 0.4
     return cfg
 
 
@@ -357,6 +359,7 @@ class OpGen:
         self.tag = seed_tag % 9000 + 1000
         self.n = 0
         self.removed: list = []  # (depth, path) of successful removals so far
+        self.plan: list = []  # scripted follow-up operations (see _scenario)
 
     def fresh_value(self) -> str:
         if self.cfg.get("dup_values") and self.rng.random() < 0.7:
@@ -386,8 +389,43 @@ class OpGen:
             return self.rng.choice(["[\n  %d\n  %d\n]", "{\n  k = %d;\n  j = %d;\n}", "''\n  foo %d\n  bar %d\n''"]) % (base, base + 1)
         return "./v%d" % base
 
+    def _scenario(self, depth: int, existing) -> list:
+        """Scripted three-step histories aimed at state a live object may keep between operations
+        (name indexes, order caches, layer lists): read through A, restructure B, write below B again."""
+        rng = self.rng
+        sets = [p for p, k, ap in existing if k == "set" and not ap]
+        leaves_of: dict = {}
+        for p, k, ap in existing:
+            if ap and len(p) > 1 and k != "set":
+                leaves_of.setdefault(p[0], []).append(p)
+        single = sorted(r for r, ls in leaves_of.items() if len(ls) == 1)
+        feasible = (["prune_root"] * 2 if single else []) + (["drop_set"] if sets else []) + ["leaf_cycle"]
+        kind = rng.choice(feasible)
+        ops: list = []
+        if kind == "prune_root" and single:
+            root = rng.choice(single)
+            if sets:
+                ops.append({"op": "set", "path": npath(depth, rng.choice(sets) + (rng.choice(FRESH),)), "value": self.fresh_value()})
+            ops.append({"op": "rm", "path": npath(depth, leaves_of[root][0])})
+            ops.append({"op": "set", "path": npath(depth, (root, rng.choice(["x", "nu", "desc"]))), "value": self.fresh_value()})
+        elif kind == "drop_set" and sets:
+            tgt = rng.choice(sets)
+            ops.append({"op": "set", "path": npath(depth, tgt + (rng.choice(FRESH),)), "value": self.fresh_value()})
+            ops.append({"op": "rm", "path": npath(depth, tgt)})
+            ops.append({"op": "set", "path": npath(depth, tgt + (rng.choice(FRESH),)), "value": self.fresh_value()})
+        else:
+            leafs = [p for p, k, _ in existing if k == "leaf"]
+            if leafs:
+                tgt = rng.choice(leafs)
+                ops.append({"op": "rm", "path": npath(depth, tgt)})
+                ops.append({"op": "set", "path": npath(depth, tgt), "value": self.fresh_value()})
+                ops.append({"op": "rm", "path": npath(depth, tgt)})
+        return ops
+
     def pick(self, dm: model.DocModel, *, scoped_bias: float = 0.0, allow_fail: bool = True) -> dict:
         rng = self.rng
+        if self.plan:
+            return self.plan.pop(0)
         fail = allow_fail and rng.random() < self.cfg.get("fail_rate", 0.0)
         is_rm = rng.random() < 0.35
         depth = 0
@@ -435,6 +473,11 @@ class OpGen:
                 return {"op": "rm", "path": npath(d, segs)}
             return {"op": "set", "path": npath(d, segs), "value": self.fresh_value()}
         # intended to succeed
+        if self.cfg.get("scenarios") and rng.random() < 0.15 and depth <= nl:
+            scripted = self._scenario(depth, existing)
+            if scripted:
+                self.plan = scripted[1:]
+                return scripted[0]
         usable = [(p, k, ap) for p, k, ap in existing if k != "ref" or self.cfg.get("refs")]
         if is_rm:
             if usable:
